@@ -50,7 +50,7 @@ def plan(tier, seed):
     return out
 
 
-def check_rec(O, S, leafmap, m, evs, labmode, orient, stubspec, seed=0, prebuilt=None):
+def check_rec(O, S, leafmap, m, evs, labmode, orient, stubspec, seed=0, prebuilt=None, scheme="plain"):
     """None or (subcheck, detail); prebuilt = (rec, onode, snode) when the reconciliation lives on shared trees"""
     lab = None if labmode == "none" else R.labellings_for(O, labmode)
     stub = stubs.install(stubs.Stub(stubspec[0], stubspec[1] + 17 * seed))
@@ -58,7 +58,7 @@ def check_rec(O, S, leafmap, m, evs, labmode, orient, stubspec, seed=0, prebuilt
         if prebuilt is not None:
             rec, onode, snode = prebuilt
         else:
-            rec, onode, snode, on, sn = R.build_rec(O, S, leafmap, m, lab)
+            rec, onode, snode, on, sn = R.build_rec(O, S, leafmap, m, lab, scheme=scheme)
         params = DrawParams(orientation=R.ORIENT[orient])
         lay = layout_mod.compute(rec, params)
         code = tikz_mod.render(rec, lay, params)
@@ -208,14 +208,17 @@ def run_shard(shard, tier, seed):
             continue
         idx += 1
         is_nt = any(e[0] == "T" or e[1] for e in evs.values())
-        for li, labmode in enumerate(("none", "same", "losses")):
+        # the fourth variant draws the unlabelled reconciliation with UNNAMED object ancestors (legal through the API: two
+        # lineages then end in nodes of equal name)
+        for li, (labmode, scheme) in enumerate((("none", "plain"), ("same", "plain"), ("losses", "plain"), ("none", "unnamed"))):
             for orient in ("V", "H"):
                 n_eval += 1
                 if is_nt:
                     nt += 1
                 stubspec = STUBS[(idx + li) % len(STUBS)]
-                bad = check_rec(O, S, leafmap, m, evs, labmode, orient, stubspec, seed)
-                case = R.rec_case(osh, ssh, leafmap, m, labelling=labmode, orientation=orient, stub=list(stubspec), seed=seed)
+                bad = check_rec(O, S, leafmap, m, evs, labmode, orient, stubspec, seed, scheme=scheme)
+                case = R.rec_case(osh, ssh, leafmap, m, labelling=labmode, orientation=orient, stub=list(stubspec), seed=seed,
+                                  scheme=scheme)
                 if bad:
                     vtotal += 1
                     if len(viols) < 6 and not any(v["subcheck"] == bad[0] for v in viols):
@@ -234,6 +237,7 @@ def replay(v):
         stubs.restore()
         return {"violated": bool(bad), "detail": (bad[0] + ": " + bad[1]) if bad else None}
     evs = dtl.events_of(O, S, leafmap, m)
-    bad = check_rec(O, S, leafmap, m, evs, c["labelling"], c["orientation"], tuple(c["stub"]), c.get("seed", 0))
+    bad = check_rec(O, S, leafmap, m, evs, c["labelling"], c["orientation"], tuple(c["stub"]), c.get("seed", 0),
+                    scheme=c.get("scheme", "plain"))
     stubs.restore()
     return {"violated": bool(bad), "detail": (bad[0] + ": " + bad[1]) if bad else None}
